@@ -77,6 +77,115 @@ def _cfgs():
     return out
 
 
+def _native_roundtrip(o, fft, cp, used, x):
+    """one modulate / demodulate (twice on the same buffer) of a real OFDM object against the statement; -> disagreement or None"""
+    n = len(x)
+    nsym = -(-n // used)
+    tx = o.modulate(x)
+    if np.shape(tx) != (nsym * (fft + cp),):
+        return {"emitted samples": list(np.shape(tx)), "expected": [nsym * (fft + cp)]}
+    blocks = np.asarray(tx).reshape(nsym, fft + cp)
+    if cp and (not (np.abs(blocks[:, :cp] - blocks[:, fft:]).max() <= 1e-12)):
+        return {"cyclic prefix is not a copy of the symbol tail": float(np.abs(blocks[:, :cp] - blocks[:, fft:]).max())}
+    want = np.concatenate([x, np.zeros(nsym * used - n)])
+    buf = np.array(tx)
+    held = buf.copy()
+    rx = np.asarray(o.demodulate(buf)).ravel()
+    if rx.shape != want.shape or (not (np.abs(rx - want).max() <= 1e-9)):
+        return {"demodulate(modulate(x)) != x ++ zeros": float(np.abs(rx - want).max()) if rx.shape == want.shape else "shape"}
+    if buf.size != held.size or (not np.array_equal(buf.ravel(), held.ravel())):
+        return {"the receive buffer was altered by demodulate": float(np.abs(buf.ravel() - held.ravel()).max())}
+    rx2 = np.asarray(o.demodulate(buf)).ravel()
+    if rx2.shape != want.shape or (not (np.abs(rx2 - want).max() <= 1e-9)):
+        return {"second demodulate of the same buffer differs": float(np.abs(rx2 - want).max()) if rx2.shape == want.shape else "shape"}
+    return None
+
+
+def _replay_roundtrip(fft, cp, used):
+    def rp(model):
+        from pyphysim.modulators import ofdm
+        try:
+            rr = np.random.RandomState(fft * 100 + cp * 10 + used)
+            o = ofdm.OFDM(fft, cp, used)
+            for n in sorted({1, used, used + 1, 2 * used}):
+                bad = _native_roundtrip(o, fft, cp, used, rr.randn(n) + 1j * rr.randn(n))
+                if bad:
+                    bad.update({"confirmed": True, "fft": fft, "cp": cp, "used": used, "input_length": n})
+                    return bad
+            return {"confirmed": False, "note": "real OFDM object round-trips generic data in this configuration"}
+        except Exception as e:
+            return {"confirmed": False, "error": "replay crashed: %r" % (e,)}
+    return rp
+
+
+def _replay_param_history(first, steps):
+    def rp(model):
+        from pyphysim.modulators import ofdm
+        try:
+            rr = np.random.RandomState(11)
+            (f0, cp0, u0, n0) = first
+            o = ofdm.OFDM(f0, cp0, u0)
+            o.demodulate(o.modulate(rr.randn(n0) + 1j * rr.randn(n0)))
+            for (f, cp, u, n) in steps:
+                o.set_parameters(f, cp, u)
+                fresh = ofdm.OFDM(f, cp, u)
+                x = rr.randn(n) + 1j * rr.randn(n)
+                where = {"confirmed": True, "after set_parameters": [f, cp, u], "input_length": n}
+                if list(map(int, o.get_used_subcarrier_indexes())) != list(map(int, fresh.get_used_subcarrier_indexes())):
+                    return dict(where, what="used subcarrier indexes differ from a fresh object's")
+                t1, t2 = o.modulate(x), fresh.modulate(x)
+                if np.shape(t1) != np.shape(t2) or (not (np.abs(t1 - t2).max() <= 1e-12)):
+                    return dict(where, what="emitted signal differs from a fresh object's",
+                                max_abs_difference=float(np.abs(t1 - t2).max()) if np.shape(t1) == np.shape(t2) else "shape")
+                bad = _native_roundtrip(o, f, cp, u, x)
+                if bad:
+                    return dict(where, **bad)
+            return {"confirmed": False, "note": "re-configured object behaves like a fresh one for generic data"}
+        except Exception as e:
+            return {"confirmed": False, "error": "replay crashed: %r" % (e,)}
+    return rp
+
+
+def _replay_equalizer(fft, cp, used, d, queried_before, hist=None):
+    def rp(model):
+        from pyphysim.modulators import ofdm
+        from pyphysim.channels import fading
+        try:
+            rr = np.random.RandomState(3)
+            eq = None
+            if hist is not None:
+                f0, cp0, u0 = hist
+                o = ofdm.OFDM(f0, cp0, u0)
+                eq = ofdm.OfdmOneTapEqualizer(o)
+                x0 = rr.randn(u0) + 1j * rr.randn(u0)
+                eq.equalize_data(o.demodulate(o.modulate(x0) * 0.7j), fading.TdlImpulseResponse(np.full((1, f0), 0.7j), _profile([0])))
+                o.set_parameters(fft, cp, used)
+            else:
+                o = ofdm.OFDM(fft, cp, used)
+            nsym = 2
+            x = rr.randn(used * nsym) + 1j * rr.randn(used * nsym)
+            tx = o.modulate(x)
+            N = tx.shape[0]
+            h = rr.randn(len(d)) + 1j * rr.randn(len(d))
+            y = np.zeros(N + d[-1], dtype=complex)
+            for i, di in enumerate(d):
+                y[di:di + N] += h[i] * tx
+            rx = o.demodulate(y[:N].copy())
+            ir = fading.TdlImpulseResponse(np.repeat(h.reshape(-1, 1), nsym * fft, axis=1), _profile(d))
+            if queried_before is not None:
+                ir.get_freq_response(queried_before)
+            out = (eq if eq is not None else ofdm.OfdmOneTapEqualizer(o)).equalize_data(rx, ir)
+            err = float(np.abs(np.asarray(out).ravel() - x).max())
+            if (not (err <= 1e-9)):
+                return {"confirmed": True, "fft": fft, "cp": cp, "used": used, "delays": list(d), "response queried before at size": queried_before,
+                        "modulator and equaliser used before with (fft, cp, used)": hist,
+                        "max |equalised - data|": err}
+            return {"confirmed": False, "note": "real equaliser recovers generic data over a generic static channel with these delays"}
+        except Exception as e:
+            return {"confirmed": False, "error": "replay crashed: %r" % (e,)}
+    return rp
+
+
 @obligation("roundtrip/symbolic_data", params=[{"fft": f, "cp": cp, "used": u} for f, cp, u in _cfgs()] +
             [{"fft": 8, "cp": cp, "used": u, "_tiers": ("quick", "thorough") if (cp, u) in ((2, 6), (8, 8)) else ("thorough",)}
              for cp in (0, 2, 3, 8) for u in (2, 6, 8)], timeout=200,
@@ -117,7 +226,7 @@ def ob_roundtrip(fft, cp, used):
             rx2 = it.call(it.getattr(o, "demodulate"), [buf])
             goals.append(Goal("n=%d: demodulating the same buffer again gives the same symbols" % n, _meq(np.asarray(rx2).ravel(), want)))
         return goals
-    return verify(body, check_side=False, timeout_ms=60000)
+    return verify(body, check_side=False, timeout_ms=60000, replay=_replay_roundtrip(fft, cp, used))
 
 
 @obligation("roundtrip/after_set_parameters_history", params=[{"seq": q} for q in ("grow_fft", "same_fft_fewer_used", "same_fft_more_used")],
@@ -151,7 +260,7 @@ def ob_history(seq="grow_fft"):
             nz = (-(-n // u)) * u - n
             goals.append(Goal("(%d,%d,%d) len %d: round trip" % (f, cp, u, n), _meq(rx, np.concatenate([x, np.zeros(nz, dtype=object)]))))
         return goals
-    return verify(body, check_side=False, timeout_ms=60000)
+    return verify(body, check_side=False, timeout_ms=60000, replay=_replay_param_history(*SEQS[seq]))
 
 
 CHANNELS = [(4, 2, 4, [0, 1]), (4, 2, 2, [0, 2]), (4, 2, 4, [1, 2]), (4, 1, 4, [1]), (4, 3, 2, [0, 1, 3]), (2, 1, 2, [0, 1]), (4, 2, 4, [0]),
@@ -160,19 +269,37 @@ CHANNELS = [(4, 2, 4, [0, 1]), (4, 2, 2, [0, 2]), (4, 2, 4, [1, 2]), (4, 1, 4, [
 
 @obligation("equalizer/exact_when_cp_covers_channel", params=[{"fft": f, "cp": cp, "used": u, "delays": "-".join(map(str, d))} for f, cp, u, d in CHANNELS] +
             [{"fft": 4, "cp": 2, "used": 4, "delays": "0-1", "queried_before": q} for q in (2, 1)] +
-            [{"fft": 2, "cp": 1, "used": 2, "delays": "0-1", "queried_before": 4}],
+            [{"fft": 2, "cp": 1, "used": 2, "delays": "0-1", "queried_before": 4}] +
+            [{"fft": 4, "cp": 2, "used": 2, "delays": "0-2", "eq_history": "2-1-2"}, {"fft": 8, "cp": 2, "used": 2, "delays": "1-2", "eq_history": "4-1-2"},
+             {"fft": 4, "cp": 2, "used": 4, "delays": "0-1", "eq_history": "4-1-2"}],
             timeout=200,
             desc="symbolic static TDL channel with the given delays (memory <= cp, incl. a first tap not at 0): y = linear convolution of the "
                  "modulated signal; demodulate(y[:len]) then equalize_data with the reported TdlImpulseResponse == the data symbols (two OFDM "
                  "symbols, inter-symbol interference absorbed by the prefix); history variants: the reported response was already asked for "
                  "its frequency response at ANOTHER FFT size (queried_before) - the answer for a size is a function of the taps and that size")
-def ob_equalizer(fft, cp, used, delays, queried_before=None):
+def ob_equalizer(fft, cp, used, delays, queried_before=None, eq_history=None):
     d = [int(t) for t in delays.split("-")]
+    hist = [int(t) for t in eq_history.split("-")] if eq_history else None
 
     def body(c, it):
         from pyphysim.modulators import ofdm
         from pyphysim.channels import fading
-        o = it.call(ofdm.OFDM, [fft, cp, used])
+        eq = None
+        if hist is not None:
+            # history: modulator and equaliser were built and USED with other parameters, then the modulator is re-configured;
+            # the equaliser object is kept (it reads the current parameters of the modulator it was given)
+            f0, cp0, u0 = hist
+            o = it.call(ofdm.OFDM, [f0, cp0, u0])
+            eq = it.call(ofdm.OfdmOneTapEqualizer, [o])
+            x0 = _sig(c, "w", u0)
+            g0 = _sig(c, "g", 1)
+            t0 = np.empty((1, f0), dtype=object)
+            t0[0, :] = g0[0]
+            rx0 = it.call(it.getattr(o, "demodulate"), [it.call(it.getattr(o, "modulate"), [x0]) * g0[0]])
+            it.call(it.getattr(eq, "equalize_data"), [rx0, it.call(fading.TdlImpulseResponse, [t0, _profile([0])])])
+            it.call(it.getattr(o, "set_parameters"), [fft, cp, used])
+        else:
+            o = it.call(ofdm.OFDM, [fft, cp, used])
         nsym = 2
         x = _sig(c, "x", used * nsym)
         tx = it.call(it.getattr(o, "modulate"), [x])
@@ -186,7 +313,8 @@ def ob_equalizer(fft, cp, used, delays, queried_before=None):
         # the reported impulse response: one sample of the (static) taps per transmitted sample
         ir = it.call(fading.TdlImpulseResponse, [taps_tv, prof])
         rx = it.call(it.getattr(o, "demodulate"), [y.copy()])
-        eq = it.call(ofdm.OfdmOneTapEqualizer, [o])
+        if eq is None:
+            eq = it.call(ofdm.OfdmOneTapEqualizer, [o])
         # per OFDM symbol the equaliser averages the response over the symbol's samples: hand it the samples of the useful part
         taps_sym = np.empty((len(d), nsym * fft), dtype=object)
         for i in range(len(d)):
@@ -201,7 +329,7 @@ def ob_equalizer(fft, cp, used, delays, queried_before=None):
             fr1 = it.call(it.getattr(ir2, "get_freq_response"), [fft])
             goals.append(Goal("later query for the OFDM size: one row per bin", np.shape(fr1) == (fft, nsym * fft)))
         return goals + [Goal("equalised symbols == data", _meq(out, x))]
-    return verify(body, check_side=False, timeout_ms=120000)
+    return verify(body, check_side=False, timeout_ms=120000, replay=_replay_equalizer(fft, cp, used, d, queried_before, hist))
 
 
 # ------------------------------------------------------------------ enumerated / bounded native
